@@ -133,6 +133,16 @@ class ShortHarness:
                     st["wb"] += 1
                     raise
 
+        def select_answer(self_, events, timeout):
+            # after a would-block the library polls for writability: the transport may also stay unwritable for the whole timeout (once)
+            if events & 2 and d.get("wouldblock") and st.get("sel_to", 0) < 1 and timeout is not None:
+                if ch.choose(2, "select") == 1:
+                    st["sel_to"] = st.get("sel_to", 0) + 1
+                    self_.log.append(("select", events, timeout, False))
+                    return False
+            return env.ScriptSock.select_answer(self_, events, timeout)
+
+        WSock.select_answer = select_answer
         sock = WSock(b"", ch=ch, send_menu=menu)
         ws = env.make_ws(sock)
         if d.get("wouldblock"):
